@@ -427,17 +427,22 @@ class Interp:
 
     def st_If(self, fr, s):
         c = self.eval(fr, s.test)
+        body, orelse = s.body, s.orelse
+        # `if not c: A else: B` is `if c: B else: A`: guards, joins and phi terms never carry a leading `not`
+        while c.op == "not":
+            c = c.args[0]
+            body, orelse = orelse, body
         tv = self.truth(c, fr)
         if tv is True:
-            return self.exec_block(fr, s.body)
+            return self.exec_block(fr, body)
         if tv is False:
-            return self.exec_block(fr, s.orelse)
+            return self.exec_block(fr, orelse)
         env0, g0 = fr.env, fr.guards
         fr.env, fr.guards = dict(env0), g0 + ((c, True),)
-        live_t = self.exec_block(fr, s.body)
+        live_t = self.exec_block(fr, body)
         env_t = fr.env
         fr.env, fr.guards = dict(env0), g0 + ((c, False),)
-        live_f = self.exec_block(fr, s.orelse)
+        live_f = self.exec_block(fr, orelse)
         env_f = fr.env
         if live_t and live_f:
             fr.env, fr.guards = self.join(env_t, env_f, c), g0
@@ -941,16 +946,20 @@ class Interp:
 
     def ex_IfExp(self, fr, e):
         c = self.eval(fr, e.test)
+        body, orelse = e.body, e.orelse
+        while c.op == "not":
+            c = c.args[0]
+            body, orelse = orelse, body
         tv = self.truth(c)
         if tv is True:
-            return self.eval(fr, e.body)
+            return self.eval(fr, body)
         if tv is False:
-            return self.eval(fr, e.orelse)
+            return self.eval(fr, orelse)
         g0 = fr.guards
         fr.guards = g0 + ((c, True),)
-        a = self.eval(fr, e.body)
+        a = self.eval(fr, body)
         fr.guards = g0 + ((c, False),)
-        b = self.eval(fr, e.orelse)
+        b = self.eval(fr, orelse)
         fr.guards = g0
         return T("ifexp", c, a, b)
 
@@ -1019,10 +1028,23 @@ class Interp:
         parts = []
         for op, comp in zip(e.ops, e.comparators):
             right = self.eval(fr, comp)
-            parts.append(T("cmp", _cmpname(op), left, right))
+            nm = _cmpname(op)
+            # canonical orientation: a literal goes to the right (`1 < len(x)` is `len(x) > 1`), so that the rules do not depend on it
+            if left.op == "const" and right.op != "const" and nm in _CMP_FLIP:
+                parts.append(T("cmp", _CMP_FLIP[nm], right, left))
+            else:
+                parts.append(T("cmp", nm, left, right))
             left = right
         if len(parts) == 1:
-            return parts[0]
+            c = parts[0]
+            # `len(x) > 0` / `len(x) != 0` / `len(x) >= 1` is the truth value of len(x); `len(x) == 0` / `< 1` / `<= 0` its negation
+            if c.args[1].op == "call" and tm.callee_name(c.args[1]) == "builtins.len" and c.args[2].op == "const" and type(c.args[2].args[1]) is int:
+                k = c.args[2].args[1]
+                if (c.args[0], k) in ((">", 0), ("!=", 0), (">=", 1)):
+                    return c.args[1]
+                if (c.args[0], k) in (("==", 0), ("<", 1), ("<=", 0)):
+                    return T("not", c.args[1])
+            return c
         return T("bool", "and", *parts)
 
     def _comp(self, fr, e, kind, elt_fn):
@@ -1536,6 +1558,9 @@ def _cmpname(op):
 def guards_imply(guards, pred):
     """Some guard in the stack satisfies pred(term, polarity)."""
     return any(pred(c, pol) for c, pol in guards)
+
+
+_CMP_FLIP = {"<": ">", ">": "<", "<=": ">=", ">=": "<=", "==": "==", "!=": "!=", "is": "is", "is not": "is not"}
 
 
 def flat_guards(guards):
